@@ -7,8 +7,11 @@ Tie: log_prob of the flows the expression language covers (triangular_spline_flo
 Search oracle (the property's own procedure, deterministic):
   * composite Gauss-Legendre quadrature of exp(log_prob): 1-D core panels of width 0.05 on [-12, 12], 12 nodes, geometric
     tails (ratio 1.5) to +-1e6 (6696 nodes), every panel bisected until it agrees with its two halves (deviation from the
-    design: stacked splines can concentrate the mass in a spike narrower than a panel), |I - 1| <= 3e-3; 2-D tensor product of panels of width 0.1 on [-8, 8], 8 nodes,
-    tails ratio 1.6 to +-1e5 (1728^2 points), |I - 1| <= 2e-2 -- exactly the calibration of design_probes/py_quad.py;
+    design: stacked splines can concentrate the mass in a spike narrower than a panel), |I - 1| <= 3e-3; 2-D tensor product of
+    panels of width 0.1 on [-8, 8], 8 nodes, tails ratio 1.6 to +-1e5 (1728^2 points), |I - 1| <= 2e-2 -- exactly the calibration
+    of design_probes/py_quad.py; when the first pass locates the bulk of the mass outside the fine core (|median| > 4 or
+    IQR/1.349 outside [0.6, 4]) the same rule is applied once more in the coordinates (x - median) / scale and the better
+    resolved of the two values is kept (second deviation: a perturbed planar flow put its mass around (-10, 25));
   * sampler agreement: Kolmogorov-Smirnov statistic of F(sample), F by cumulative quadrature (1-D; 2-D: first-coordinate
     marginal from the tensor grid), N = 20000 draws at a fixed key, threshold 0.0234 (1e-9 quantile) + quadrature error.
 Every flow evaluation runs in worker processes under a wall-clock guard (numerical inversion of a bounded layer never
